@@ -71,7 +71,19 @@ pub fn gen_block_ret(r: &mut Rng, depth: usize, counter: &mut usize, budget: &mu
 pub fn gen(r: &mut Rng) -> Value {
     let mut c = 0;
     let mut budget = 14;
-    json!({ "prog": gen_block(r, 0, &mut c, &mut budget) })
+    let prog = gen_block(r, 0, &mut c, &mut budget);
+    if r.chance(1, 10) {
+        // history: another program has already run on the same Context
+        let mut b2 = 6;
+        let prelude = gen_block(r, 0, &mut c, &mut b2);
+        return json!({ "prog": prog, "prelude": prelude });
+    }
+    json!({ "prog": prog })
+}
+
+/// structural class of an input (to tell the listed known finding from a new violation)
+pub fn class_of(input: &Value) -> &'static str {
+    if input["prelude"].as_array().map(|a| !a.is_empty()).unwrap_or(false) { "second-script-on-a-context-that-already-ran-another-script" } else { "other" }
 }
 
 const IF_SP: [&str; 2] = ["if", "std::flowcontrol::If"];
@@ -241,20 +253,50 @@ pub fn interp_ret(block: &Vec<Value>, vars: &mut BTreeMap<String, String>, steps
 }
 
 pub fn run(input: &Value) -> Option<Value> {
+    run_inner(input).map(|mut d| {
+        d["class"] = json!(class_of(input));
+        d
+    })
+}
+
+fn run_inner(input: &Value) -> Option<Value> {
     let prog = input["prog"].as_array()?.clone();
     let mut lines = vec![];
     render(&prog, &mut lines);
     let script = lines.join("\n");
     let mut vars = BTreeMap::new();
     let mut steps = 0;
+    let mut context = Context::new();
+    duckscriptsdk::load(&mut context.commands).ok()?;
+    context.commands.set(Box::new(Probe {})).ok()?;
+    if let Some(pre) = input["prelude"].as_array() {
+        if !pre.is_empty() {
+            let mut pl = vec![];
+            render(pre, &mut pl);
+            interp(pre, &mut vars, &mut steps);
+            context = match runner::run_script(&pl.join("\n"), context, None) {
+                Ok(c) => c,
+                Err(_) => return None,
+            };
+        }
+    }
     interp(&prog, &mut vars, &mut steps);
     if steps > 5000 {
         return None;
     }
-    let mut context = Context::new();
-    duckscriptsdk::load(&mut context.commands).ok()?;
-    context.commands.set(Box::new(Probe {})).ok()?;
-    match runner::run_script(&script, context, None) {
+    // with a history the real run may be misdirected into a loop: stop it through the halt flag after a while
+    let env = if input["prelude"].is_null() {
+        None
+    } else {
+        let halt = std::sync::Arc::new(std::sync::atomic::AtomicBool::new(false));
+        let h2 = halt.clone();
+        std::thread::spawn(move || {
+            std::thread::sleep(std::time::Duration::from_millis(300));
+            h2.store(true, std::sync::atomic::Ordering::SeqCst);
+        });
+        Some(duckscript::types::env::Env::new(None, None, Some(halt)))
+    };
+    match runner::run_script(&script, context, env) {
         Ok(ctx) => {
             let real: BTreeMap<String, String> = ctx.variables.iter().filter(|(k, _)| !k.starts_with('h')).map(|(k, v)| (k.clone(), v.clone())).collect();
             let vars: BTreeMap<String, String> = vars.into_iter().filter(|(k, _)| !k.starts_with('h')).collect();
